@@ -206,9 +206,9 @@ func (g *generator) base(family, key, format, kind string, s sk) *c07Case {
 func (g *generator) all(run func(*c07Case)) {
 	thorough := g.tier == "thorough"
 	// F1: the full grid of positive cases
-	reps := 1
+	reps := 2
 	if thorough {
-		reps = 12
+		reps = 30
 	}
 	for r := 0; r < reps; r++ {
 		for _, key := range specNames {
@@ -238,7 +238,7 @@ func (g *generator) all(run func(*c07Case)) {
 		return q
 	}
 	// F2: more random positive cases (descriptors with extras, metadata, durations, agents)
-	for i := 0; i < n(60, 1500); i++ {
+	for i := 0; i < n(100, 4000); i++ {
 		run(rnd("positive"))
 	}
 	// F3: blob sizes and media types
@@ -265,7 +265,7 @@ func (g *generator) all(run func(*c07Case)) {
 		run(c)
 	}
 	// F4: illegal arguments and metadata
-	for i := 0; i < n(4, 40); i++ {
+	for i := 0; i < n(6, 100); i++ {
 		for _, mut := range []string{"neg", "subsec", "fmt-empty", "fmt-bad", "reserved", "reserved-exact", "clash"} {
 			c := rnd("illegal-" + mut)
 			switch mut {
@@ -305,7 +305,7 @@ func (g *generator) all(run func(*c07Case)) {
 		}
 	}
 	// F5: verification that must fail, and verification-time variations that must not matter
-	for i := 0; i < n(5, 60); i++ {
+	for i := 0; i < n(8, 150); i++ {
 		for _, mut := range []string{"untrusted", "tamper", "vmt", "vmeta-wrong", "vmeta-missing", "vmeta-reserved", "vextras"} {
 			c := rnd("verify-" + mut)
 			switch mut {
@@ -381,7 +381,7 @@ func (g *generator) all(run func(*c07Case)) {
 		}
 	}
 	// F6: plugins that misdescribe the key or cannot sign
-	for i := 0; i < n(2, 20); i++ {
+	for i := 0; i < n(3, 50); i++ {
 		for _, mut := range []string{"junk", "empty", "wrong", "nocaps", "bothcaps", "case"} {
 			c := g.base("plugin-"+mut, pickKey(), Pick(g.rng, formats), Pick(g.rng, []string{"oci", "blob"}), signerKinds[1+g.rng.Intn(2)])
 			switch mut {
@@ -406,7 +406,7 @@ func (g *generator) all(run func(*c07Case)) {
 	// F8: descriptor sizes at and beyond the float64 integer range (the JWS envelope of
 	// notation-core-go re-encodes the payload through float64: KNOWN finding, footprint 1)
 	bigSizes := []int64{1 << 53, 1<<53 + 1, 1<<53 - 1, 1 << 60, 4260165850628664065, 9223372036854775807, 1<<53 + 2}
-	for i := 0; i < n(0, 40); i++ {
+	for i := 0; i < n(0, 150); i++ {
 		bigSizes = append(bigSizes, int64(g.rng.U64()>>1), int64(g.rng.U64()>>uint(2+g.rng.Intn(9))))
 	}
 	for i, sz := range bigSizes {
@@ -419,7 +419,7 @@ func (g *generator) all(run func(*c07Case)) {
 	}
 	// F7: text that JSON cannot carry unchanged (invalid UTF-8)
 	bad := []string{"\xff", "a\xc3", "\xc3\x28", "\xe2\x82", "\xed\xa0\x80", "\xf0\x9f\x98", "\xf4\x90\x80\x80", "\xc0\xaf", "ok\xfe\xffok", "\xe0\x9f\xbf", "\xf0\x8f\xbf\xbf", "\xef\xbf\xbd", "\xf4\x8f\xbf\xbf", "\xe0\xa0\x80", "\xc2\x80", "\xed\x9f\xbf"}
-	for i := 0; i < n(3, 30); i++ {
+	for i := 0; i < n(4, 80); i++ {
 		for _, where := range []string{"meta-value", "meta-key", "meta-collide", "ann", "oci-mt"} {
 			c := rnd("non-utf8-" + where)
 			if where == "ann" || where == "oci-mt" {
